@@ -180,7 +180,19 @@ func genC07(t *core.Tape, tier string) *Scenario {
 			} else if t.Bool(1, 2, "bad.proto.variant") {
 				bad = [][]byte{{0x0a, 0x7f, 'x'}, {0x08}, {0x0a, 0xff, 0xff, 0xff, 0xff, 0x0f}}[t.Choose(3, "bad.proto")]
 			}
+			if streaming && t.Bool(1, 4, "bad.codec.eof") {
+				// a user-supplied codec whose complaint wraps io.EOF: still an
+				// undecodable payload, not the end of the request
+				sc.Handlers[0].FailCodec = true
+				bad = append(append([]byte(nil), unmarshalEOFMarker...), 'x')
+				sc.Notes["codec_error_wraps_eof"]++
+			}
 			body = ref.EncodeRequestBody(ref.Proto(proto), streaming, ref.EncOpts{}, [][]byte{bad})
+			if (p.Kind == KClient || p.Kind == KBidi) && t.Bool(1, 2, "bad.in.the.middle") {
+				// ... between two good messages
+				good := ref.EncodeBytesValue(codec, []byte("ok"))
+				body = ref.EncodeRequestBody(ref.Proto(proto), streaming, ref.EncOpts{}, [][]byte{good, bad, good})
+			}
 			delete(hdr, encHeader)
 			info.noEntry = p.Kind == KUnary || p.Kind == KServer
 		case 3:
